@@ -139,9 +139,18 @@ PRE = ("From Coq Require Import List ZArith Bool String Ascii.\n"
 def write_cases(dirpath, tag, cases, shard):
     """cases: list of (text, impl result).  Returns list of (path, first, count)."""
     files = []
-    for k in range(0, len(cases), shard):
+    # shards of at most `shard` cases and ~150 kB of script text (a multi-MB literal overflows coqc's stack)
+    bounds, start, size = [], 0, 0
+    for i, (text, _) in enumerate(cases):
+        if i > start and (i - start >= shard or size + len(text) > 150000):
+            bounds.append((start, i))
+            start, size = i, 0
+        size += len(text)
+    if start < len(cases):
+        bounds.append((start, len(cases)))
+    for k, k_end in bounds:
         rows = []
-        for text, res in cases[k:k + shard]:
+        for text, res in cases[k:k_end]:
             roots, body = expected_literal(res)
             rows.append(tocoq.with_terms(roots, lambda names, t=text, b=body: "(%s, %s)" % (coq_chars(t), b(names))))
         src = PRE + "Definition cases : list (list ascii * er (list cmd)) := [\n%s\n].\n" % ";\n".join(rows)
@@ -149,7 +158,7 @@ def write_cases(dirpath, tag, cases, shard):
                 "Eval vm_compute in (mismatches (fun c => result_eqb (fst c) (snd c)) results,\n"
                 "                    mismatches (fun c => accept_eqb (fst c) (snd c)) results,\n"
                 "                    mismatches (fun c => negb (is_unmodelled (fst c))) results).\n")
-        p = os.path.join(dirpath, "cases_%s_%d.v" % (tag, k // shard))
+        p = os.path.join(dirpath, "cases_%s_%d.v" % (tag, len(files)))
         with open(p, "w") as f:
             f.write(src)
         files.append((p, k, len(rows)))
